@@ -381,34 +381,49 @@ structure Rendered where
   xoff : Int
   st : CS
 
+/-- widths of `get_line_prefix(l, k)` as the scroll code measures them -/
+def prefixWidths (W : Widths) (pf : Option (Nat → Nat → Text)) (l : Nat) : Option (Nat → Nat) :=
+  pf.map fun f => fun k => textWidth W (f l k)
+
+/-- `fragment_list_width(get_line_prefix(cursor line, 0))`, 0 without a prefix function -/
+def prefix0Width (W : Widths) (pf : Option (Nat → Nat → Text)) (cy : Nat) : Nat :=
+  match pf with
+  | some f => textWidth W (f cy 0)
+  | none => 0
+
+/-- `Window._scroll` : the new scroll state for content `lines` with the cursor at `(cy, cx)` -/
+def scrollFor (W : Widths) (c : Cfg) (lines : List Text) (width : Int) (height : Nat) (wrap : Bool)
+    (cy cx : Nat) (s : Scroll) : Scroll :=
+  let pf := c.prefixFn
+  let line := lines.getD cy []
+  if wrap then
+    if width ≤ 0 then { vs := cy, hs := 0, vs2 := 0 }
+    else
+      let lh := fun l => heightForLine W (lines.getD l []) width.toNat (prefixWidths W pf l) none
+      let tbh := heightForLine W line width.toNat (prefixWidths W pf cy) (some (cx + 1))
+      scrollWrap lh tbh lines.length cy height c.top c.bottom c.beyond s
+  else
+    let p0 := prefix0Width W pf cy
+    scrollNoWrap W line lines.length cy cx width height c.top c.bottom c.left c.right p0 c.beyond s
+
+/-- the arguments `_copy_body` gets -/
+def envFor (W : Widths) (c : Cfg) (width : Int) (height : Nat) (wrap : Bool) (mw : Nat) : Env :=
+  { W := W, width := width, height := height, wrap := wrap,
+    xpos := c.xpos + mw, ypos := c.ypos, pfx := c.prefixFn }
+
 /-- `Window._write_to_screen_at_index` for a focused `BufferControl` window: content, scroll, copy.
     `none` = the processors' position map raised. -/
 def render (W : Widths) (c : Cfg) (totalWidth height : Nat) (wrap : Bool) (text : Text) (cur : Nat)
     (s : Scroll) : Option Rendered :=
   let lines := contentLines c.procs text
-  let lc := lines.length
-  let mw : Nat := if c.margin then numberedMarginWidth lc else 0
+  let mw : Nat := if c.margin then numberedMarginWidth lines.length else 0
   let width : Int := (totalWidth : Int) - mw
   let cy := rowOf text cur
   match cursorX c.procs text cur with
   | none => none
   | some cx =>
-    let pf := c.prefixFn
-    let line := lines.getD cy []
-    let pwOf : Nat → Option (Nat → Nat) := fun l => pf.map fun f => fun k => textWidth W (f l k)
-    let s' :=
-      if wrap then
-        if width ≤ 0 then { vs := cy, hs := 0, vs2 := 0 }
-        else
-          let lh := fun l => heightForLine W (lines.getD l []) width.toNat (pwOf l) none
-          let tbh := heightForLine W line width.toNat (pwOf cy) (some (cx + 1))
-          scrollWrap lh tbh lc cy height c.top c.bottom c.beyond s
-      else
-        let p0 := match pf with | some f => textWidth W (f cy 0) | none => 0
-        scrollNoWrap W line lc cy cx width height c.top c.bottom c.left c.right p0 c.beyond s
-    let e : Env := { W := W, width := width, height := height, wrap := wrap,
-                     xpos := c.xpos + mw, ypos := c.ypos, pfx := pf }
+    let s' := scrollFor W c lines width height wrap cy cx s
     some { scroll := s', cy := cy, cx := cx, width := width, xoff := c.xpos + mw,
-           st := copyBody e lines s' }
+           st := copyBody (envFor W c width height wrap mw) lines s' }
 
 end Ptk.C11
